@@ -132,20 +132,22 @@ func (e *Encoder) writeObject(data interface{}) (int, error) {
 		return e.writeBytes(encodeDate(date))
 	}
 
+	// the value of an unexported field cannot be read: refuse before anything is written and before the
+	// object takes a ref ordinal (the ordinals of everything written to the stream afterwards would be off by one)
+	uv := UnpackPtrValue(vv)
+	typ := uv.Type()
+	for i := 0; i < uv.NumField(); i++ {
+		if !uv.Field(i).CanInterface() {
+			return 0, newCodecError("writeObject", "unsupported object: field %s of %v is not exported", typ.Field(i).Name, typ)
+		}
+	}
+
 	// check ref
 	if n, ok := e.checkEncodeRefMap(vv); ok {
 		return e.writeRef(n)
 	}
 
-	vv = UnpackPtrValue(vv)
-
-	typ := vv.Type()
-	// the value of an unexported field cannot be read: refuse before anything is written
-	for i := 0; i < vv.NumField(); i++ {
-		if !vv.Field(i).CanInterface() {
-			return 0, newCodecError("writeObject", "unsupported object: field %s of %v is not exported", typ.Field(i).Name, typ)
-		}
-	}
+	vv = uv
 	clsName, ok := e.nameMap[typ.Name()]
 	if !ok {
 		// (the Go name is used, not entered into the name map: the map may be the caller's, and under
